@@ -256,6 +256,17 @@ end
 
 /-! ### From the start node -/
 
+theorem ownEvent_startTagOpen {inScope : List (Nat × Nat)} {b : Bool} {n : Tree} {name : Nat}
+    (h : OwnEvent inScope b n (.startTagOpen name)) : n.value = .element name := by
+  unfold OwnEvent edgeStart edgeEnd at h
+  cases hv : n.value <;> simp [hv] at h
+  rcases h with h1 | h1
+  · rw [h1]
+  · have h2 := h1.2
+    unfold extraPrefixes at h2
+    simp at h2
+
+
 theorem stackTrace_mem_events (s : FStack) (evs : List (Path × Output)) (x : FStack × Path × Output)
     (h : x ∈ stackTrace esc env pr t s evs) : (x.2.1, x.2.2) ∈ evs := by
   induction evs generalizing s with
